@@ -17,6 +17,7 @@ import (
 	"strings"
 	"text/scanner"
 	"time"
+	"unicode/utf8"
 	"unsafe"
 
 	"github.com/metrico/qryn/writer/model"
@@ -246,9 +247,38 @@ var DecodePushRequestStringV2 = Build(
 func encodeLabels(lbls [][]string) string {
 	arrLbls := make([]string, len(lbls))
 	for i, l := range lbls {
-		arrLbls[i] = fmt.Sprintf("%s:%s", strconv.Quote(l[0]), strconv.Quote(l[1]))
+		arrLbls[i] = fmt.Sprintf("%s:%s", jsonQuote(l[0]), jsonQuote(l[1]))
 	}
 	return fmt.Sprintf("{%s}", strings.Join(arrLbls, ","))
+}
+
+// jsonQuote renders s as a JSON string. It writes what strconv.Quote writes wherever that is JSON;
+// Go's escapes \a \v \x.. \U........ are not: control characters become \u00.., non-printable
+// characters above U+FFFF are copied, a byte that is not UTF-8 becomes U+FFFD.
+func jsonQuote(s string) string {
+	buf := make([]byte, 0, len(s)+2)
+	buf = append(buf, '"')
+	for _, r := range s {
+		switch {
+		case r == '"' || r == '\\':
+			buf = append(buf, '\\', byte(r))
+		case r == '\b':
+			buf = append(buf, '\\', 'b')
+		case r == '\f':
+			buf = append(buf, '\\', 'f')
+		case r == '\n':
+			buf = append(buf, '\\', 'n')
+		case r == '\r':
+			buf = append(buf, '\\', 'r')
+		case r == '\t':
+			buf = append(buf, '\\', 't')
+		case r < 0x10000 && !strconv.IsPrint(r):
+			buf = append(buf, fmt.Sprintf("\\u%04x", r)...)
+		default:
+			buf = utf8.AppendRune(buf, r)
+		}
+	}
+	return string(append(buf, '"'))
 }
 
 func fingerprintLabels(lbls [][]string) uint64 {
@@ -281,6 +311,8 @@ func sanitizeLabels(lbls [][]string) [][]string {
 		if len(lbls[i][1]) > 100 {
 			lbls[i][1] = lbls[i][1][:100] + "..."
 		}
+		// the cut may split a character and clients send arbitrary bytes: the label document is JSON, which is UTF-8
+		lbls[i][1] = strings.ToValidUTF8(lbls[i][1], "\uFFFD")
 	}
 	return lbls
 }
